@@ -6,6 +6,8 @@ import string
 
 from hypothesis import strategies as st
 
+from vlib import gen
+
 from vlib.core import Info, Sub, Violation, fail
 
 PROPERTY = "C18"
@@ -40,12 +42,12 @@ STALE = st.sampled_from([None, None, "disconnected", "reset", "epipe"])
 
 @st.composite
 def header_dicts(draw):
-    names = draw(st.lists(st.one_of(st.sampled_from(BASE_NAMES), st.sampled_from(BASE_NAMES[:2]), st.sampled_from(BASE_NAMES[:2]), st.sampled_from(BASE_NAMES[:1]), st.text(TCHAR, min_size=1, max_size=5).map(str.lower)),
+    names = draw(st.lists(gen.pick(st.sampled_from(BASE_NAMES), st.sampled_from(BASE_NAMES[:2]), st.sampled_from(BASE_NAMES[:2]), st.sampled_from(BASE_NAMES[:1]), st.text(TCHAR, min_size=1, max_size=5).map(str.lower)),
                           max_size=4, unique=True))
     d = {}
     for n in names:
         cased = "".join(c.upper() if draw(st.booleans()) else c for c in n)
-        val = draw(st.one_of(
+        val = draw(gen.pick(
             st.text(string.ascii_letters + string.digits + " ;=,/é", min_size=1, max_size=8).map(lambda s: s.strip()).filter(bool),
             st.integers(-5, 5), st.floats(allow_nan=False, allow_infinity=False, width=16), st.booleans(), st.none()))
         d[cased] = val
@@ -58,13 +60,13 @@ def op_trees(depth=0):
         return st.lists(call, max_size=2)
     block = st.tuples(st.just("block"), header_dicts(), st.sampled_from(["normal", "normal", "exception"]),
                       st.deferred(lambda: op_trees(depth + 1)))
-    return st.lists(st.one_of(call, block, block), max_size=3)
+    return st.lists(gen.pick(call, block, block), max_size=3)
 
 
 @st.composite
 def cases(draw):
-    return {"ctor": draw(st.one_of(st.none(), header_dicts())), "ops": draw(op_trees()),
-            "user_agent": draw(st.one_of(st.none(), st.text(string.ascii_letters + "/. ", min_size=1, max_size=8).map(str.strip).filter(bool))),
+    return {"ctor": draw(gen.pick(st.none(), header_dicts())), "ops": draw(op_trees()),
+            "user_agent": draw(gen.pick(st.none(), st.text(string.ascii_letters + "/. ", min_size=1, max_size=8).map(str.strip).filter(bool))),
             "content_type": draw(st.sampled_from(["application/json-rpc", "application/json"])),
             "other_thread": draw(st.booleans()), "credentials": draw(st.booleans()), "stale": draw(STALE),
             "temporaries": draw(st.booleans()), "edits": draw(st.booleans())}
@@ -79,7 +81,7 @@ def chain_cases(draw):
 
     def small_dict():
         names = draw(st.lists(st.sampled_from(pool), min_size=1, max_size=3, unique_by=lambda n: n.lower()))
-        return {n: draw(st.one_of(st.integers(0, 9), st.sampled_from(["v1", "v2", "a b", True, None, 1.5]))) for n in names}
+        return {n: draw(gen.pick(st.integers(0, 9), st.sampled_from(["v1", "v2", "a b", True, None, 1.5]))) for n in names}
 
     ops = [("call",)] if draw(st.booleans()) else []
     for _ in range(k):
